@@ -13,5 +13,5 @@ CONSTANTS
   BugClearAlways = FALSE
   BugKeepOld = FALSE
 VIEW view
-INVARIANTS TypeOK RingOK QuiescentConverged CallOK NoStuck WindowOnly ReqGapAskable ReqNotStarved
+INVARIANTS TypeOK RingOK QuiescentConverged CallOK NoStuck WindowOnly ReqGapAskable
 CHECK_DEADLOCK FALSE
